@@ -58,6 +58,7 @@ class Ctx:
             if f not in self.builds:
                 self.builds[f] = build.ensure_build(f)
         self.zy = {}
+        self.default_flavour = flavours[0] if flavours else "asan"
         self.white_box = all(b["white_box"] for b in self.builds.values())
         self.counters = collections.Counter()
 
@@ -73,7 +74,8 @@ class Ctx:
                 self.zy[k] = proto.Zygote(self.builds[flavour][tool])
         return self.zy[k]
 
-    def run(self, world, flavour="asan"):
+    def run(self, world, flavour=None):
+        flavour = flavour or self.default_flavour
         w = {k: v for k, v in world.items() if not k.startswith("_")}
         if flavour == "valgrind":
             # the simulator's own pre-fill and probe would make indeterminate memory look defined
